@@ -40,6 +40,8 @@ claims = {
          "websocket library = harness model; upstream evaluates the forwarded subscription (validated natively); quick tier: canonical schedule"),
  "C18": ("DESIGN.md §4 C18", "The real subscriptionHandler message loop, subscriptionDict.Clean(All), subscriptionEntry.Listen/Close, sendHeartbeat, newSubscriptionEntry (real planner) and the goroutines of (*MultiOpQueryer).Subscribe under EVERY interleaving (stateful search, partial-order reduction at visible operations, race detector): client scripts (start / stop / stop unknown / terminate / malformed / unknown type / second start, then abrupt disconnect), upstream scripts (0-1 events then complete / error frame / disconnect / stays open), heartbeat ticks; obligations: no unrecovered panic, no fatal error, no deadlock, no goroutine alive once the handler returned, every frame contiguous and well-formed.",
          "websocket library = harness connection model (frame = two writes); upgrade/dial succeed; engine's model of channels, select, Mutex/TryLock, defer/recover; quick: 1 client message, thorough: 2"),
+ "C19": ("DESIGN.md §4 C19", "End to end over the multipart models: requests.Parse (multipart branch) + injectFile -> planner/executor -> extractFiles / UploadMap / prepareMultipart / fetchFile / queryBatch: six layouts (top-level, nested input object, list, two services, a service that does not use the variable, one file at two paths) x single/batched: the owning service receives a multipart call whose operations document has null at the named path, whose map names the same path and whose part has the same file name and bytes; services that do not use the variable receive no file.",
+         "mime/multipart modelled on both sides (parsed form in, tree of parts out); gqlparser native; canonical schedule"),
  "C20": ("DESIGN.md §4 C20", "AsyncMapReduce[int,int,[]int] under every interleaving (stateful search, no pre-emption bound) for n<=3 (quick) / 4 (thorough), failure bit per item symbolic, with a happens-before race detector, deadlock and goroutine-leak detection.",
          "engine's model of channels, select, WaitGroup, defer; map/reduce functions neither panic nor block"),
 }
